@@ -292,7 +292,9 @@ def stream_histories(ctx, r):
     # a COPY of the params object of a URL is a detached value: it outlives its source (which is destroyed, replaced
     # by construction, moved from or re-parsed), is edited afterwards, and the source (if alive) must not change
     for rep in range(scale(ctx, 300, 4000)):
-        lines = ["parse 0 %s -" % tok("http://h/p?" + r.choice(UNSORTED)), "parse 2 %s -" % tok("https://o/q?k=v"), "sp 0", "sp_snapshot 0 1"]
+        lines = ["parse 0 %s -" % tok("http://h/p?" + r.choice(UNSORTED)), "parse 2 %s -" % tok("https://o/q?k=v")]
+        if r.random() < 0.7: lines.append("sp 0")
+        lines.append(r.choice(["sp_snapshot 0 1", "sp_snapshot 0 1", "sp_take 0 1"]))
         k = r.random()
         if k < 0.25: lines.append("copyctor 0 2")          # the owner object is destroyed and replaced
         elif k < 0.5: lines.append("movector 0 2")
@@ -327,7 +329,9 @@ def stream_histories(ctx, r):
             elif x < 0.72: lines.append("swap %d %d" % (a, b))
             elif x < 0.76: lines.append("sp %d" % a)
             elif x < 0.92: lines.append(gen_sp_op(r, "sp", a))
-            elif x < 0.94: lines.append("sp_snapshot %d %d" % (a, r.randint(0, 3)))
+            elif x < 0.925: lines.append("sp_snapshot %d %d" % (a, r.randint(0, 3)))
+            elif x < 0.935: lines.append("sp_take %d %d" % (a, r.randint(0, 3)))
+            elif x < 0.94: lines.append("swapf %d %d" % (a, b))
             elif x < 0.96: lines.append("sp_%s %d %d" % (r.choice(["assign", "safe_assign"]), a, r.randint(0, 3)))
             elif x < 0.98: lines.append("usp_new %d %s" % (r.randint(0, 3), tok(r.choice(["", "a=1&b=2", "?z=%F0%9F%92%A9&a=b"]))))
             else: lines.append("equals %d %d %s" % (a, b, r.choice("01")))
@@ -578,6 +582,8 @@ def stream_urlenc(ctx, r):
             n = "".join(r.choice(["a", "=", "&", "+", "%", " ", "\u00e9", "\U0001f4a9", "\x00", "*-._~!'()", "%41"]) for _ in range(r.randint(0, 4)))
             v = "".join(r.choice(["a", "=", "&", "+", "%", " ", "\u00e9", "\uffff", "\n", "\r\n"]) for _ in range(r.randint(0, 4)))
             lines.append("usp_append 0 %s %s" % (tok(n, e), tok(v, e)))
+            if r.random() < 0.3:
+                lines.append("usp_pairs 1 %s %s %s %s" % (tok(n, e), tok(v, e), tok(v, e), tok(n, e)))
         lines.append("usp_snapshot 0 1")
     # the same parser and serializer through the object attached to a URL (url::search_params()): parse() of the
     # attached object, with and without a leading '?', and the UTF-8 length boundaries in every input width
@@ -599,7 +605,12 @@ def stream_usp(ctx, r):
         lines = ["usp_new 0 %s" % tok(r.choice(["", "?a=1&b=2&a=3", "z=1&\uffff=2&\U00010000=3&a=4&\ue000=5", "b=2&a=1&b=1&a=2", "=&=&a"]))]
         for _ in range(r.randint(1, scale(ctx, 20, 80))):
             k = r.random()
-            if k < 0.85: lines.append(gen_sp_op(r, "usp", 0))
+            if k < 0.75: lines.append(gen_sp_op(r, "usp", 0))
+            elif k < 0.80:
+                e = r.choice(["b", "b", "h", "w", "W"])
+                lines.append("usp_pairs %d %s" % (r.choice([0, 1]), " ".join(tok(r.choice(SP_NAMES), e) for _ in range(2 * r.randint(0, 4)))))
+            elif k < 0.83: lines.append("usp_swap %d %d" % (r.choice([0, 1]), r.choice([0, 1, 2])))
+            elif k < 0.85: lines.append("usp_%s %d %d" % (r.choice(["move", "movector"]), *r.sample([0, 1, 2], 2)))
             elif k < 0.9: lines.append("usp_snapshot 0 1")
             elif k < 0.95: lines.append("usp_assign 0 1")
             else: lines.append("usp_safe_assign 0 1")
